@@ -39,7 +39,36 @@ fn plist<const K: usize>() {
     core::mem::forget(r);
 }
 
+/// the shared language-identifier entry on K arbitrary subtags, strict and permissive
+fn langid<const K: usize>() {
+    let toks: [Tok; K] = h::toks9();
+    h::note_toks(&toks);
+    let allow = k::bool();
+    let (r, _left) = h::parse_tokens_rest(&toks, allow);
+    cover!(r.is_ok());
+    cover!(r.is_err());
+    core::mem::forget(r);
+}
+
+/// byte-level entry points of both crates on a separator frame (concrete subtags, every `?` any byte)
+fn entry_points<const L: usize>(pat: &[u8; L]) {
+    let buf = crate::c02::sep_frame(pat);
+    #[cfg(not(kani))]
+    eprintln!("INPUT bytes={:?} {:?}", String::from_utf8_lossy(&buf), &buf);
+    let a = unic_langid_impl::LanguageIdentifier::from_bytes(&buf);
+    let b = unic_locale_impl::Locale::from_bytes(&buf);
+    let c = ExtensionsMap::from_bytes(&buf);
+    cover!(b.is_ok());
+    cover!(b.is_err());
+    core::mem::forget((a, b, c));
+}
+
 proofs! {
+
+[push, sortv, boxed] fn c01_langid_tokens_2() { langid::<2>() }
+[push, sortv, boxed] fn c01_langid_tokens_3() { langid::<3>() }
+[push, sortt, sortv, boxed] fn c01_bytes_en_u_ca() { entry_points(b"en?u?ca") }
+[push, sortt, sortv, boxed] fn c01_bytes_x_a() { entry_points(b"?x?a?") }
 
 // extension dispatch on any subtag (where `unimplemented!()` lives)
 [push, sortt, sortv, boxed] fn c01_extmap_dispatch_1() { extmap::<1>() }
